@@ -17,6 +17,54 @@ Theorem C01_lyb_chunk_roundtrip :
 Proof. exact lyb_chunk_roundtrip_proof. Qed.
 Print Assumptions C01_lyb_chunk_roundtrip.
 
+(* the hypotheses are met by non-trivial scripts: nested siblings with the constants of lyb.h (bytes checked
+   literally), and - with LYB_SIZE_MAX = 7 in the same code - a payload that spans three chunks on two
+   nested levels *)
+Example C01_lyb_chunk_example :
+  let script := [Start; Write [1; 2; 3]; Start; Write [4]; Stop; Start; Stop; Write [5; 6]; Stop] in
+  well_bracketed script = true /\
+  match lyb_run_write script with
+  | Ok st => w_out st = [6; 0; 2; 0;  1; 2; 3;  1; 0; 0; 0;  4;  0; 0; 0; 0;  5; 6]
+  | Err _ => False
+  end.
+Proof. exact chunk_example. Qed.
+Example C01_lyb_chunk_example_multi :
+  let script := [Start; Write [9]; Start; Write (pattern 20); Stop; Write [8]; Stop] in
+  well_bracketed script = true /\
+  match lyb_run_write_small 7 script with
+  | Ok st => lyb_run_read_small 7 (shape script) (w_out st) = Ok (payloads script, mk_r [] []) /\
+             length (w_out st) = 50%nat
+  | Err _ => False
+  end.
+Proof. exact chunk_example_multi. Qed.
+
+(* the writer is total on well-bracketed scripts up to the inner_chunks limit: the loop of lyb_write() ends
+   within the fuel of the model, assert(written <= LYB_SIZE_MAX) never fails, and the only error is LOGINT *)
+Theorem C01_lyb_write_fails_only_logint :
+  forall script, well_bracketed script = true ->
+    (exists st, lyb_run_write script = Ok st) \/ lyb_run_write script = Err E_LOGINT.
+Proof. exact lyb_write_total_proof. Qed.
+Print Assumptions C01_lyb_write_fails_only_logint.
+
+(* lyb_inner_chunks_bounded as planned (one payload byte before every nested start gives
+   inner_chunks <= written + 1, hence no LOGINT) is false. Witnesses with small constants in the same code:
+   LYB_SIZE_MAX = 3 reaches written = 2, inner_chunks = 4; LYB_SIZE_MAX = LYB_INCHUNK_MAX = 3 (equal, as in
+   lyb.h) fails with LOGINT at nesting depth 3. What is missing: the positive statement for the discipline the
+   printer really obeys (two bytes - node type and hash - before every nested start) and bounded depth. *)
+Theorem C01_lyb_inner_chunks_bounded_refuted_small :
+  exists script st s,
+    disciplined 1 script 0 0 = true /\ lyb_run_write_small 3 script = Ok st /\
+    In s (w_sibs st) /\ written s + 1 < inner_chunks s.
+Proof. exact inner_le_written_refuted_small. Qed.
+Print Assumptions C01_lyb_inner_chunks_bounded_refuted_small.
+
+Theorem C01_lyb_logint_reachable_small :
+  exists script,
+    disciplined 1 script 0 0 = true /\ well_bracketed script = false /\ max_depth script 0 = 3%nat /\
+    run_write 3 2 3 2 4 script = Err E_LOGINT.
+Proof. exact logint_reachable_small. Qed.
+Print Assumptions C01_lyb_logint_reachable_small.
+
 (* LYB schema hashes: whenever lyb_hash_siblings() succeeds on a list of siblings (module name, node name)
    in lys_getnext() order, then for every sibling the bytes that lyb_print_schema_hash() writes are read by
    lyb_read_hashes() without tripping its asserts or its array bound, and lyb_parse_schema_hash() - first
@@ -37,3 +85,12 @@ Theorem C01_lyb_hash_total_refuted :
   exists l : list snode, NoDup l /\ hash_siblings l = None.
 Proof. exact hash_total_refuted_proof. Qed.
 Print Assumptions C01_lyb_hash_total_refuted.
+
+(* a sibling set that needs two hashes: leaves a, b, c, n256 of module m; n256 collides with a on collision
+   id 0 and is printed as [hash id 1; hash id 0] *)
+Example C01_lyb_hashseq_example :
+  match hash_siblings [([109], [97]); ([109], [98]); ([109], [99]); ([109], [110; 50; 53; 54])] with
+  | Some ht => (print_schema_hash ht 0 ([109], [97]), print_schema_hash ht 3 ([109], [110; 50; 53; 54]))
+  | None => (None, None)
+  end = (Some [202], Some [71; 202]).
+Proof. exact hashseq_example. Qed.
